@@ -103,7 +103,7 @@ def check(ctx):
                                 any(isinstance(c, ast.Call) and callee_name(c) in ("call", "eval", "_undefer", "materialize", "resolve_deferred") for c in ast.walk(a.value))
                                 for a in walk_local(f.node))
                 ctx.ob("C11-R1", f.fq, f"the reader result `{v.id}` (from {reader_vars[v.id]}) is evaluated/unwrapped before it is returned as data", sanitised, node=r,
-                       construct=f"returns reader output {v.id} unevaluated",
+                       construct="returns reader output unevaluated",
                        msg=f"{f.name} returns what {reader_vars[v.id].split(':')[1]} produced without evaluating deferred nodes: a written dictionary `:{{...}}` reads back as a function-call object (KGCall), not as a dictionary")
     ctx.floor("C11-R1", "system functions returning reader output as data", sinks, 2)
     # ---- R2
